@@ -737,7 +737,16 @@ Judge(S, st) ==
                THEN Bad(T5, "C05", "the sender has been announced more capacity than the receiver granted")
                ELSE T5
       T6 == IF T5b.ok THEN DumpCheck(T5b, st) ELSE T5b
-  IN [T6 EXCEPT !.inp = NoInp, !.outs = <<>>, !.rems = <<>>]
+      \* C12: a callee older than 1.16 is never sent an abort; the broker itself ends the call and must
+      \* then swallow the callee's late reply ("re-encodes ... aborts ... for older ones").  A call
+      \* clause broken on exactly that path -- the abort of a call to such a callee, or its late
+      \* reply -- is a C12 matter as well.
+      oldCallee(x) == x \in DOMAIN S.conns /\ S.conns[x] < 16
+      c12path == inp.t = "msg" /\
+                 \/ inp.m.k = "CallFunctionReply" /\ <<inp.c, inp.m.serial>> \in DOMAIN S.zomb /\ oldCallee(inp.c)
+                 \/ inp.m.k = "AbortFunctionCall" /\ <<inp.c, inp.m.serial>> \in DOMAIN S.calls /\ oldCallee(S.calls[<<inp.c, inp.m.serial>>].callee)
+      T7 == IF S.ok /\ ~T6.ok /\ c12path /\ T6.prop \in {"C02", "C02+C09"} THEN [T6 EXCEPT !.prop = @ \o "+C12"] ELSE T6
+  IN [T7 EXCEPT !.inp = NoInp, !.outs = <<>>, !.rems = <<>>]
 
 \* ---------------------------------------------------------------------------------------------
 \* The fold
